@@ -320,3 +320,210 @@ Proof.
 Qed.
 
 End Steps.
+
+(** ** what the kernel answers is what the oracle accepts for that call *)
+
+Lemma classify_err_pos : forall k o e, classify k o = CErr e -> 0 < e.
+Proof. intros k o e H. destruct k, o; simpl in H; inversion H; unfold EBADF, ENOTSOCK; lia. Qed.
+
+Lemma firstn_nil {A} : forall n, firstn n (@nil A) = [].
+Proof. destruct n; auto. Qed.
+
+Lemma kernel_chk : forall rs co T cl x v bytes x',
+  let ri := c_res cl in
+  let sp := nth ri rs rsdummy in
+  r_kind x = rs_kind sp -> r_eof x = rs_eof sp -> 0 <= r_avail x -> 1 <= c_len cl ->
+  (ri < length T)%nat -> tr_get T ri = (r_pos x, r_wrote x) ->
+  (rs_eof sp = true -> r_avail x = 0 -> r_pos x = rs_pre sp) ->
+  kernel ri x (c_op cl) (c_len cl) = KDone v bytes x' ->
+  exists T', chk_call rs co T cl (map_result v bytes) = Some T'
+    /\ tr_get T' ri = (r_pos x', r_wrote x') /\ (forall r, r <> ri -> tr_get T' r = tr_get T r)
+    /\ r_kind x' = r_kind x /\ r_eof x' = r_eof x /\ r_timed x' = r_timed x /\ 0 <= r_avail x'
+    /\ r_pos x' + r_avail x' = r_pos x + r_avail x
+    /\ r_avail x - rd_len rs ri cl <= r_avail x'.
+Proof.
+  intros rs co T cl x v bytes x' ri sp Hk He Hav Hlen Hlt Htr Heofpos Hker.
+  unfold kernel in Hker. unfold chk_call. fold ri. fold sp. rewrite Htr.
+  unfold rd_len. fold ri. rewrite Nat.eqb_refl. fold sp.
+  rewrite Hk in Hker. destruct (classify (rs_kind sp) (c_op cl)) as [e| |] eqn:Ecl.
+  - (* an error completion *)
+    inversion Hker; subst v bytes x'; clear Hker.
+    pose proof (classify_err_pos _ _ _ Ecl) as Hpos.
+    unfold map_result. replace (- e <? 0) with true by lia. rewrite Z.opp_involutive, Z.eqb_refl.
+    exists T. repeat split; auto; lia.
+  - (* a read with data, at end of stream, or nothing yet *)
+    destruct (0 <? r_avail x) eqn:Eav.
+    + inversion Hker; subst v bytes x'; clear Hker.
+      set (n := Z.min (c_len cl) (r_avail x)).
+      assert (Hn : 1 <= n) by (unfold n; lia).
+      unfold map_result. replace (n <? 0) with false by lia.
+      rewrite firstn_all' by (unfold stream; rewrite sbytes_length; auto).
+      replace (0 <=? n) with true by lia. replace (n <=? c_len cl) with true by (unfold n; lia).
+      rewrite zlist_eqb_refl. replace (0 <? n) with true by lia. cbn [andb orb].
+      exists (upd ri (r_pos x + n, r_wrote x) T). split; auto.
+      split; [apply tr_get_upd_same; auto|]. split; [intros; apply tr_get_upd_other; auto|].
+      cbn. repeat split; auto; unfold n; lia.
+    + destruct (r_eof x) eqn:Eeof; try discriminate.
+      inversion Hker; subst v bytes x'; clear Hker.
+      assert (Hav0 : r_avail x = 0) by lia.
+      unfold map_result. cbn [Z.ltb Z.compare Z.to_nat firstn].
+      assert (Hp : r_pos x = rs_pre sp) by (apply Heofpos; congruence).
+      cbn [Z.leb Z.compare]. replace (0 <=? c_len cl) with true by lia.
+      unfold stream. cbn [Z.to_nat sbytes list_eqb]. rewrite <- He, Eeof, Hp, Z.eqb_refl. cbn [andb orb Z.ltb Z.compare].
+      exists (upd ri (rs_pre sp + 0, r_wrote x) T). split; auto.
+      split; [rewrite tr_get_upd_same by auto; rewrite Z.add_0_r, <- Hp; auto|].
+      split; [intros; apply tr_get_upd_other; auto|]. repeat split; auto; lia.
+  - (* a write *)
+    rewrite <- He. destruct (r_eof x) eqn:Eeof.
+    + inversion Hker; subst v bytes x'; clear Hker.
+      unfold map_result, EPIPE. cbn [Z.opp Z.ltb Z.compare]. cbn [andb Z.eqb Pos.eqb].
+      exists T. repeat split; auto; lia.
+    + inversion Hker; subst v bytes x'; clear Hker.
+      unfold map_result. replace (c_len cl <? 0) with false by lia. rewrite firstn_nil.
+      rewrite Z.eqb_refl. cbn [negb andb list_eqb].
+      exists (upd ri (r_pos x, r_wrote x + c_len cl) T). split; auto.
+      split; [apply tr_get_upd_same; auto|]. split; [intros; apply tr_get_upd_other; auto|].
+      cbn. repeat split; auto; lia.
+Qed.
+
+(** ** a completion *)
+
+Lemma advance_irrel : forall st i x k, advance (set_caller st i x) i k = advance st i k.
+Proof.
+  intros. unfold advance. destruct (k_prog k) as [|cl rest].
+  - unfold set_caller, set_callers; cbn. rewrite upd_upd. reflexivity.
+  - unfold submit. cbn [set_caller set_callers s_table].
+    destruct (tget (k_tok k) (s_table st)).
+    + unfold die, set_caller, set_callers; cbn. rewrite upd_upd. reflexivity.
+    + destruct (c_hold cl && negb (k_co k)).
+      * unfold set_caller, set_callers, set_table; cbn. rewrite upd_upd. reflexivity.
+      * unfold is_closed, push, die, add_tag, set_inflight, set_caller, set_callers, set_table; cbn.
+        rewrite upd_upd. reflexivity.
+Qed.
+
+Section Complete.
+Variable rs : list rspec.
+Variable cs : list cspec.
+Hypothesis Hnd : NoDup (map cs_tok cs).
+Hypothesis Hpriv : private cs = true.
+Hypothesis Hcalls : forall c cl, In c cs -> In cl (cs_prog c) -> (c_res cl < length rs)%nat /\ 1 <= c_len cl.
+Hypothesis Hnodef : forall c cl, In c cs -> In cl (cs_prog c) -> cs_co c = true ->
+  rs_kind (nth (c_res cl) rs rsdummy) <> KClosed
+  /\ (classify (rs_kind (nth (c_res cl) rs rsdummy)) (c_op cl) = CRead -> rs_timed (nth (c_res cl) rs rsdummy) = false).
+
+Variable total : nat -> Z.
+Hypothesis Htotal : forall r, feedable (rs_kind (nth r rs rsdummy)) (rs_eof (nth r rs rsdummy)) = false -> total r = 0.
+
+Notation Inv := (Inv rs cs).
+Notation cinv := (cinv rs).
+
+(** the state in which caller [i], whose pending call [cl] has just been answered, is about to go on *)
+Lemma retire_inv : forall rest st j q i kq cl c v bytes x',
+  Inv None rest total st ->
+  nth_error (s_inflight st) j = Some q -> q_own q = i ->
+  nth_error (s_callers st) i = Some kq -> k_stat kq = SWait cl -> q_call q = cl ->
+  nth_error cs i = Some c ->
+  kernel (c_res cl) (nth (c_res cl) (s_res st) rdummy) (c_op cl) (c_len cl) = KDone v bytes x' ->
+  Inv (Some i) rest total
+    {| s_res := upd (c_res cl) x' (s_res st);
+       s_callers := upd i {| k_co := k_co kq; k_tok := k_tok kq; k_prog := k_prog kq; k_stat := SDone;
+                             k_out := map_result v bytes :: k_out kq; k_seq := k_seq kq; k_slot := None;
+                             k_buf := [] |} (s_callers st);
+       s_inflight := del_nth j (s_inflight st);
+       s_table := tdel (k_tok kq) (s_table st);
+       s_dead := None; s_div := false; s_tags := s_tags st |}.
+Proof.
+  intros rest st j q i kq cl c v bytes x' HI Hq Hown Hk Hst Hcl Hc Hker.
+  set (ri := c_res cl) in *.
+  pose proof (i_callers _ _ _ _ _ _ HI i c kq Hc Hk) as CI.
+  pose proof (inv_nodup rs cs Hnd _ _ _ _ HI) as ND.
+  assert (Hlt : (i < length (s_callers st))%nat) by (eapply nth_error_some_lt; eauto).
+  assert (Hcin : In c cs) by (eapply nth_error_In; eauto).
+  destruct CI as [A B C D E F [done [T [G1 [G2 [G3 G4]]]]]].
+  assert (Htodo : todo kq = cl :: k_prog kq) by (unfold todo, pending; rewrite Hst; auto).
+  assert (Hin : In cl (cs_prog c)) by (rewrite G1, Htodo; apply in_or_app; right; simpl; auto).
+  destruct (Hcalls c cl Hcin Hin) as [Hrlt Hlen]. fold ri in Hrlt.
+  assert (Huse : uses c ri = true) by (apply uses_in; auto).
+  destruct (nth_error_lt_some rs ri Hrlt) as [sp Hsp].
+  assert (Hrlt' : (ri < length (s_res st))%nat) by (rewrite (i_rlen _ _ _ _ _ _ HI); auto).
+  destruct (nth_error_lt_some (s_res st) ri Hrlt') as [x Hx].
+  destruct (i_res _ _ _ _ _ _ HI ri sp x Hsp Hx) as [R1 [R2 [R3 [R4 [R5 R6]]]]].
+  rewrite (nth_error_nth _ _ _ rdummy Hx) in Hker.
+  assert (HTlen : length T = length rs).
+  { rewrite (chk_calls_length _ _ _ _ _ _ G2). apply zero_track_length. }
+  assert (Hsp' : nth ri rs rsdummy = sp) by (apply nth_error_nth; auto).
+  destruct (kernel_chk rs (cs_co c) T cl x v bytes x') as [T' [K1 [K2 [K3 [K4 [K5 [K6 [K7 [K8 K9]]]]]]]]]; auto.
+  { fold ri. rewrite Hsp'. auto. }
+  { fold ri. rewrite Hsp'. auto. }
+  { fold ri. lia. }
+  { fold ri. rewrite (G3 ri Huse). rewrite (nth_error_nth _ _ _ rdummy Hx). auto. }
+  { fold ri. rewrite Hsp'. intros He Ha.
+    (* a descriptor whose peer is closed is never fed *)
+    assert (Hf : forall scr, feeds_of rs scr ri = 0).
+    { intro scr. unfold feeds_of. rewrite Hsp'. unfold feedable. rewrite He, andb_false_r. auto. }
+    pose proof (Hf rest). assert (total ri = 0) by (apply Htotal; rewrite Hsp'; unfold feedable; rewrite He, andb_false_r; auto). lia. }
+  fold ri in K2, K3, K9.
+  assert (Hownj : forall q', In q' (del_nth j (s_inflight st)) -> q_own q' <> i).
+  { intros q' Hq' Eo.
+    assert (In (q_own q') (map q_own (del_nth j (s_inflight st)))) by (apply in_map; auto).
+    rewrite del_nth_map in H. revert H. rewrite Eo. rewrite <- Hown.
+    apply not_in_del_nth; [apply (i_fl_c _ _ _ _ _ _ HI)|]. rewrite nth_error_map, Hq. auto. }
+  assert (Htoko : forall j' kj, j' <> i -> nth_error (s_callers st) j' = Some kj -> k_tok kj <> k_tok kq).
+  { intros j' kj Hne Hkj E'. apply Hne. eapply tok_inj; eauto. }
+  constructor; cbn [s_dead s_div s_callers s_res s_table s_inflight]; auto.
+  - rewrite upd_length. apply (i_len _ _ _ _ _ _ HI).
+  - rewrite (map_upd k_tok _ i _ cdummy); [apply (i_toks _ _ _ _ _ _ HI)|].
+    rewrite (nth_error_nth _ _ _ cdummy Hk). reflexivity.
+  - intros j' cj kj Hcj Hkj. rewrite nth_error_upd in Hkj by auto. destruct (Nat.eq_dec j' i).
+    + subst j'. inversion Hkj; subst kj; clear Hkj. assert (cj = c) by congruence; subst cj.
+      constructor; cbn; auto; try congruence.
+      exists (done ++ [cl]), T'. split; [|split; [|split]].
+      * rewrite G1, Htodo, <- app_assoc. unfold todo, pending; cbn. reflexivity.
+      * rewrite chk_calls_snoc by (rewrite rev_length; rewrite <- (rev_length (k_out kq)); eapply chk_calls_len; eauto).
+        rewrite G2. exact K1.
+      * intros r Hr. destruct (Nat.eq_dec r ri).
+        -- subst r. rewrite K2. rewrite nth_upd_same by auto. reflexivity.
+        -- rewrite K3 by auto. rewrite nth_upd_other by auto. apply G3; auto.
+      * intros r Hr. assert (r <> ri) by (intro; subst; congruence). rewrite K3 by auto. apply G4; auto.
+    + apply cinv_other with (run := None); try congruence.
+      apply cinv_res_ext with (res := s_res st).
+      * intros r Hr. apply nth_upd_other. intro; subst r.
+        assert (uses cj ri = false) by (eapply (private_spec cs i j'); eauto). congruence.
+      * eapply (i_callers _ _ _ _ _ _ HI); eauto.
+  - rewrite upd_length. apply (i_rlen _ _ _ _ _ _ HI).
+  - intros r sp' y Hsp'' Hy. rewrite nth_error_upd in Hy by auto. destruct (Nat.eq_dec r ri).
+    + subst r. inversion Hy; subst y; clear Hy. assert (sp' = sp) by congruence; subst sp'.
+      repeat split; try congruence; try lia.
+      all: intros Hun; specialize (Hun c Hcin); congruence.
+    + apply (i_res _ _ _ _ _ _ HI); auto.
+  - intros j' kj Hkj. rewrite nth_error_upd in Hkj by auto. destruct (Nat.eq_dec j' i).
+    + inversion Hkj; subst kj; cbn. apply tget_tdel_same.
+    + rewrite tget_tdel_other by (apply not_eq_sym; eauto). apply (i_table _ _ _ _ _ _ HI); auto.
+  - intros q' Hq'. pose proof (Hownj q' Hq') as Hne. apply in_del_nth in Hq'.
+    destruct (i_fl_a _ _ _ _ _ _ HI q' Hq') as [kq' [cl' [H1 [H2 H3]]]].
+    exists kq', cl'. rewrite nth_error_upd_other by auto. auto.
+  - intros j' kj cl' Hkj Hst'. rewrite nth_error_upd in Hkj by auto. destruct (Nat.eq_dec j' i).
+    + inversion Hkj; subst kj; cbn in Hst'; discriminate.
+    + destruct (i_fl_b _ _ _ _ _ _ HI j' kj cl' Hkj Hst') as [q' [Hq1 Hq2]].
+      exists q'. split; auto. eapply in_del_nth_other; eauto. intro; subst q'. congruence.
+  - rewrite del_nth_map. apply nodup_del_nth. apply (i_fl_c _ _ _ _ _ _ HI).
+  - intros r sp' y Hsp'' Hy Hrd Heof. rewrite (rdemand_upd rs _ i _ cdummy r Hlt).
+    rewrite (nth_error_nth _ _ _ cdummy Hk). rewrite Htodo.
+    unfold todo. unfold pending at 1. cbn [k_stat k_prog app].
+    change (cl :: k_prog kq) with ([cl] ++ k_prog kq). rewrite demand_of_app.
+    assert (Hone : demand_of rs r [cl] = rd_len rs r cl).
+    { unfold demand_of. cbn [map]. rewrite sumZ_cons. change (sumZ []) with 0. lia. }
+    rewrite Hone.
+    rewrite nth_error_upd in Hy by auto. destruct (Nat.eq_dec r ri).
+    + subst r. inversion Hy; subst y; clear Hy. assert (sp' = sp) by congruence; subst sp'.
+      pose proof (i_suff _ _ _ _ _ _ HI ri sp x Hsp Hx Hrd Heof). lia.
+    + pose proof (i_suff _ _ _ _ _ _ HI r sp' y Hsp'' Hy Hrd Heof).
+      assert (rd_len rs r cl = 0).
+      { unfold rd_len. fold ri. destruct (Nat.eqb ri r) eqn:E'; auto. apply Nat.eqb_eq in E'. congruence. }
+      lia.
+  - intros j' kj Hkj Hst'. rewrite nth_error_upd in Hkj by auto. destruct (Nat.eq_dec j' i).
+    + inversion Hkj; subst kj; cbn in Hst'; discriminate.
+    + eapply (i_start _ _ _ _ _ _ HI); eauto.
+Qed.
+
+End Complete.
